@@ -1,0 +1,74 @@
+//! Verification hooks (feature `verif-hooks`): read-only probes and thin wrappers that expose
+//! crate-private state and codecs to an external test harness. Nothing here is used by the
+//! library itself, and nothing here mutates protocol state.
+#![allow(missing_docs)]
+
+use crate::Duration;
+
+/// Read-only snapshot of internal connection state
+#[derive(Debug, Clone, Default)]
+pub struct VerifProbe {
+    /// Discriminant of the connection state: 0 handshake, 1 established, 2 closed, 3 draining,
+    /// 4 drained
+    pub state: u8,
+    pub highest_space: u8,
+    pub bytes_in_flight: u64,
+    pub ack_eliciting_in_flight: u64,
+    pub prev_path_bytes_in_flight: Option<u64>,
+    pub congestion_window: u64,
+    pub loss_probes: [u32; 3],
+    pub pto: [Duration; 3],
+    pub pto_count: u32,
+    pub path_validated: bool,
+    pub path_total_sent: u64,
+    pub path_total_recvd: u64,
+    pub path_remote: Option<std::net::SocketAddr>,
+    pub prev_path_remote: Option<std::net::SocketAddr>,
+    pub current_mtu: u16,
+    pub mtu_probe_in_flight: Option<u64>,
+    pub sent_packets: [usize; 3],
+    pub lost_packets: [usize; 3],
+    pub next_packet_number: [u64; 3],
+    pub crypto_buffered: [usize; 3],
+    pub path_responses: usize,
+    pub pending_retire_cids: usize,
+    pub pending_new_cids: usize,
+    pub datagram_recv_buffered: usize,
+    pub datagram_incoming: usize,
+    pub datagram_outgoing_total: usize,
+    pub datagram_outgoing: usize,
+    pub authentication_failures: u64,
+    pub total_authed_packets: u64,
+    pub key_phase: bool,
+    pub idle_timeout: Option<Duration>,
+    pub app_limited: bool,
+    pub streams: VerifStreamsProbe,
+}
+
+/// Read-only snapshot of stream accounting
+#[derive(Debug, Clone, Default)]
+pub struct VerifStreamsProbe {
+    pub next: [u64; 2],
+    pub max: [u64; 2],
+    pub max_remote: [u64; 2],
+    pub next_remote: [u64; 2],
+    pub allocated_remote_count: [u64; 2],
+    pub send_streams: usize,
+    pub max_data: u64,
+    pub data_sent: u64,
+    pub data_recvd: u64,
+    pub local_max_data: u64,
+    pub sent_max_data: u64,
+    pub receive_window: u64,
+    pub stream_receive_window: u64,
+    pub unacked_data: u64,
+    pub send_window: u64,
+    /// Sum over open receive streams of assembler-buffered bytes
+    pub recv_buffered: usize,
+    /// Sum over open receive streams of assembler-allocated bytes
+    pub recv_allocated: usize,
+    /// Largest per-stream assembler-buffered byte count
+    pub recv_buffered_max_stream: usize,
+    pub recv_entries: usize,
+    pub send_entries: usize,
+}
